@@ -15,6 +15,7 @@ import (
 	"github.com/Eyevinn/mp4ff/mp4"
 	"pgregory.net/rapid"
 
+	"verif/internal/esgen"
 	"verif/internal/harness"
 	"verif/internal/nalgen"
 )
@@ -384,13 +385,8 @@ func hevcCheckConf(c hevcConfCase) *harness.Fail {
 
 func TestHEVCConf(t *testing.T) {
 	harness.RunRapid(t, "conf", func(rt *rapid.T) {
-		sps := hevcGenSPS(rt, hevcSPSOpts{ID: -1, Log2Poc: -1, SAO: -1, MaxDim: 16888}, "")
-		c := hevcConfCase{SPS: *sps, VPS: *hevcGenVPS(rt, &sps.SPS, "v")}
-		n := rapid.IntRange(1, 2).Draw(rt, "npps")
-		ids := hevcDistinct(rt, n, 63, "ppsid")
-		for i := 0; i < n; i++ {
-			c.PPS = append(c.PPS, *hevcGenPPS(rt, sps, ids[i], fmt.Sprintf("p%d", i)))
-		}
+		vps, sps, ppss := esgen.HEVCGenConfSets(rt)
+		c := hevcConfCase{SPS: *sps, VPS: *vps, PPS: ppss}
 		c.SampleEntry = rapid.SampledFrom([]string{"hvc1", "hev1"}).Draw(rt, "entry")
 		c.IncludePS = rapid.Bool().Draw(rt, "include")
 		c.VpsComplete, c.SpsComplete, c.PpsComplete = rapid.Bool().Draw(rt, "vc"), rapid.Bool().Draw(rt, "sc"), rapid.Bool().Draw(rt, "pc")
